@@ -71,6 +71,13 @@ def run(P, rep, tier):
     rep.floor("C03.R3", 9)
     rep.floor("C03.R4", 5)
     rep.floor("C03.R5", 8)
+    # refinement against the pinned tree for every function the rules above looked at (rules/pinned.py)
+    import os as _os
+
+    if not _os.environ.get("MDSA_PINNED_GEN"):
+        from .pinned import refine
+
+        refine(P, rep, ctx, "C03")
 
 
 # ------------------------------------------------------------------------------------------- R1
